@@ -59,13 +59,19 @@ def norm_coeff(text):
     return (tuple(body.split()), comment.strip() if sep else None)
 
 
+def norm_pair(text):
+    """an empty pair-coefficient entry means 'no pair coefficients for this type'"""
+    c = norm_coeff(text)
+    return None if c == ((), None) else c
+
+
 def model_from_spec(spec):
     atoms = []
     for i in range(len(spec["pos"])):
         t = spec["atom_types"][i]
         atoms.append({"tag": round(float(spec["charges"][i]), 9), "pos": [float(x) for x in spec["pos"][i]],
                       "label": spec["type_labels"][t], "el": spec["type_elements"][t], "mass": float(spec["type_masses"][t]),
-                      "pair": norm_coeff(spec["pair_coeffs"][t]) if spec["pair_coeffs"] else None,
+                      "pair": norm_pair(spec["pair_coeffs"][t]) if spec["pair_coeffs"] else None,
                       "charge": float(spec["charges"][i]), "group": int(spec["groups"][i]),
                       "extra": {l: str(spec["extra_atom_fields"][i][j]) for j, l in enumerate(spec["extra_atom_labels"])}})
     terms = {}
@@ -103,7 +109,7 @@ def resolve(a, what="object"):
             bad("atom %d has type id %d but the pair-coefficient table has %d rows" % (i, t, len(pair)))
         atoms.append({"tag": round(float(a.charges[i]), 9), "pos": [float(x) for x in a.positions[i]],
                       "label": str(labels[t]), "el": str(els[t]), "mass": float(masses[t]),
-                      "pair": norm_coeff(pair[t]) if pair else None,
+                      "pair": norm_pair(pair[t]) if pair else None,
                       "charge": float(a.charges[i]), "group": int(a.groups[i]),
                       "extra": {l: str(xaf[i][j]) for j, l in enumerate(xal)}})
     terms = {}
